@@ -102,13 +102,16 @@ pub fn on_spawn_event() {
 
 pub static PANICS: Mutex<Vec<(String, String)>> = Mutex::new(Vec::new());
 
+static VERBOSE_PANICS: AtomicBool = AtomicBool::new(false);
 pub fn install_panic_hook() {
+    if std::env::var_os("DH_PANIC_VERBOSE").is_some() { VERBOSE_PANICS.store(true, Ordering::Relaxed); }
     std::panic::set_hook(Box::new(|info| {
         let msg = if let Some(s) = info.payload().downcast_ref::<&str>() { s.to_string() }
                   else if let Some(s) = info.payload().downcast_ref::<String>() { s.clone() } else { "?".to_string() };
         let name = thread::current().name().unwrap_or("?").to_string();
         let loc = info.location().map(|l| { let f = l.file(); let tail = match f.rfind("src/") { Some(i) => &f[i..], None => f }; format!("{}:{}", tail, l.line()) }).unwrap_or_default();
         if name == "main" { eprintln!("MONITOR THREAD PANICKED: {} @ {}", msg, loc); }
+        if VERBOSE_PANICS.load(Ordering::Relaxed) { eprintln!("PANIC on '{}': {} @ {}", name, msg, loc); }
         if let Ok(mut p) = PANICS.lock() { if p.len() < 256 { p.push((name, format!("{} @ {}", msg, loc))); } }
     }));
 }
@@ -440,6 +443,9 @@ pub fn run_program(prog: Program, opts: &Opts, plan: noise::Plan) -> RunResult {
     let exits_at_start = exits0;
     for ph in phases.iter() {
         if outcome != Outcome::Completed { break; }
+        // the panic scenarios only make sense once the injected panic has really happened (a try_sync that found the object busy
+        // does not run its closure): otherwise the run ends here and counts as trivial
+        if ctx.prog.panics && ctx.expected_panic_seen.load(Ordering::SeqCst) == 0 { break; }
         if ph.wait_pool_exit {
             // "once the panic has finished unwinding": every pool thread that ran a panicking body has exited
             let need = ctx.prog.ops.iter().enumerate().filter(|(i, _)| ctx.recs[*i].outcome.load(ORD) == 5 && ctx.recs[*i].runner.load(ORD) == 1).count();
